@@ -809,6 +809,10 @@ mut("c15-uniquecuts-wrap-guard-reverted", "C15", "cmd/gts/split.go", "\t\t\t\tif
 mut("c12-uniquecuts-wrap-guard-reverted", "C12", "cmd/gts/split.go", "\t\t\t\tif len(heads) < 2 {", "\t\t\t\tif len(heads) < 1 {", ["UNIQUE-CUTS|main.split|wrap"])
 mut("c15-uniquecuts-wrap-silent-le", "C15", "cmd/gts/split.go", "\t\t\t\tif len(heads) < 2 {", "\t\t\t\tif len(heads) <= 1 {", silent=True)
 
+mut("c03-pointvanish-reverted", "C03", "location.go", "\tif n < 0 && i <= p && p < i-n {\n\t\treturn Between(i)\n\t}", "\tif n < 0 && i == p {\n\t\treturn Between(i)\n\t}", ["POINT-VANISH|gts.Point.Expand"], note="the repaired defect, reintroduced")
+mut("c03-pointvanish-closed-end", "C03", "location.go", "\tif n < 0 && i <= p && p < i-n {", "\tif n < 0 && i <= p && p <= i-n {", ["POINT-VANISH|gts.Point.Expand"], note="the first base behind the deleted stretch survives")
+mut("c03-pointvanish-silent-rearranged", "C03", "location.go", "\tif n < 0 && i <= p && p < i-n {", "\tif n < 0 && p >= i && p+n < i {", silent=True, note="the same guard with the terms moved across the comparisons")
+
 if __name__ == "__main__":
     here = os.path.dirname(os.path.abspath(__file__))
     ids = [m["id"] for m in M]
